@@ -38,7 +38,7 @@ QUOTA = {'quick': 120, 'thorough': 2500}
 KASSIGN = {'quick': 6, 'thorough': 60}
 REQUIRED = {'quick': {'evaluations': 1500, 'decodes_compiled_compared': 1500, 'decodes_reloaded_compared': 1500,
                       'encodes_compared': 1000, 'tabled_programs': 150, 'history_steps': 300, 'evictions_seen': 20,
-                      'loop_programs': 500, 'operator_programs': 300, 'marker_programs': 100},
+                      'loop_programs': 500, 'operator_programs': 300, 'marker_programs': 100, 'version_collision_steps': 500},
             'thorough': {'evaluations': 40000, 'decodes_compiled_compared': 40000, 'decodes_reloaded_compared': 40000,
                          'encodes_compared': 25000, 'tabled_programs': 1200, 'history_steps': 8000, 'evictions_seen': 500,
                          'loop_programs': 12000, 'operator_programs': 8000, 'marker_programs': 3000}}
@@ -315,9 +315,63 @@ def history(ctx, pool):
                 break
 
 
+def version_collisions(ctx):
+    """same descriptor list under two table versions that define an element differently, processed by
+    ONE compiled coder in both orders: the cache must be keyed by the table group as well"""
+    from pybufrkit.decoder import Decoder
+    from pybufrkit.encoder import Encoder
+    from pybufrkit.renderer import FlatJsonRenderer
+    from pybufrkit.utils import EntityEncoder
+    rng = ctx.rng
+    pairs = cases.version_sensitive_pairs(19 if ctx.quick else 6)
+    if not pairs:
+        return
+    plain_d, plain_e = Decoder(), Encoder()
+    for _ in range(6 if ctx.quick else 40):
+        pair = rng.choice(pairs)
+        try:
+            ids, (ma, mb) = cases.version_pair_messages(rng, pair, compressed=rng.random() < 0.3)
+        except (R.Unsupported, KeyError):
+            continue
+        msgs = {'A': ma.bytes, 'B': mb.bytes}
+        want = {k: outcome(lambda: snap(plain_d.process(b))) for k, b in msgs.items()}
+        fjs = {}
+        wante = {}
+        for k, b in msgs.items():
+            try:
+                fjs[k] = json.dumps(FlatJsonRenderer().render(plain_d.process(b)), cls=EntityEncoder)
+                wante[k] = outcome(lambda: ('ok', plain_e.process(fjs[k]).serialized_bytes))
+            except Exception:
+                pass
+        for size in (1, 2, 50):
+            for order in ('AB', 'BA', 'ABA'):
+                dec = Decoder(compiled_template_cache_max=size)
+                enc = Encoder(compiled_template_cache_max=size)
+                for step, k in enumerate(order):
+                    ctx.count('version_collision_steps')
+                    ctx.evaluated((msgs[k].hex(), 'vc', size, order, step), True)
+                    o = outcome(lambda: snap(dec.process(msgs[k])))
+                    if o != want[k] and not (o[0] == 'exc' and want[k][0] == 'exc' and o[1] == want[k][1]):
+                        ctx.violate('history/same-ids-other-table-version/decode/cache%s' % (size if size < 3 else 'n'),
+                                    'element %06d differs between versions %d and %d: with one compiled decoder (cache %d) and order %s, '
+                                    'message %s (step %d) decodes differently from the interpreted decoder (%s)'
+                                    % (pair[0], pair[1], pair[2], size, order, k, step, why_differs(o, want[k])),
+                                    dict(pair=list(pair), ids=ids, order=order, size=size, hexA=msgs['A'].hex(), hexB=msgs['B'].hex()))
+                        break
+                    if k in fjs:
+                        oe = outcome(lambda: ('ok', enc.process(fjs[k]).serialized_bytes))
+                        if oe != wante[k] and not (oe[0] == 'exc' and wante[k][0] == 'exc' and oe[1] == wante[k][1]):
+                            ctx.violate('history/same-ids-other-table-version/encode/cache%s' % (size if size < 3 else 'n'),
+                                        'element %06d, versions %d/%d: one compiled encoder (cache %d), order %s: message %s encodes differently'
+                                        % (pair[0], pair[1], pair[2], size, order, k),
+                                        dict(pair=list(pair), ids=ids, order=order, size=size, hexA=msgs['A'].hex(), hexB=msgs['B'].hex()))
+                            break
+
+
 def run(ctx):
     rng = ctx.rng
     decs, encs = make_coders()
+    version_collisions(ctx)
     B33, D33 = cases.tables(33)
     pool = []
     # hand-made shapes (scoped only)
